@@ -207,6 +207,23 @@ def main():
         if e["shape"] in type_errors:
             e["type_errors"] = type_errors[e["shape"]]
     open(os.path.join(out, "contracts_gen.go"), "w").write("\n".join(contract_lines) + "\n")
+    # replay hints: the attribute types a schema-typed target has for this shape
+    hints = {}
+    for sh in data["shapes"]:
+        a = sh["attrs"]
+        kind = a["Kind"]
+        def prim():
+            et = short_type(a["ElemType"])
+            if a.get("IsTypeScalar") == "true": return et
+            if a.get("TypeConstructor"): return short_type(a["TypeConstructor"])
+            return et + "{}"
+        h = {"[g]": "types.Int64Type", "[s]": "types.Int64Type", "[x]": "types.Int64Type", "[active]": "types.BoolType"}
+        ns = a["NameSnake"]
+        if kind == "Primitive": h["[%s]" % ns] = prim()
+        elif kind in ("PrimitiveList", "PrimitiveMap"): h["[%s].ElemType" % ns] = prim()
+        for fn in ("Copy%sToTerraform" % sh["id"], "Copy%sFromTerraform" % sh["id"]):
+            hints[fn] = h
+    json.dump(hints, open(os.path.join(out, "replay_hints.json"), "w"), indent=1)
     json.dump({"flip_diffs": data.get("flip_diffs") or [], "functions": index, "msg_from": data["msg_from"], "msg_to": data["msg_to"], "msg_schema": data["msg_schema"],
                "unused_templates": [tpls[i][1] for i in range(len(tpls)) if i not in used]}, open(os.path.join(out, "index.json"), "w"), indent=1)
     print("tier2: ill-typed shapes: %s" % sorted(type_errors))
